@@ -79,7 +79,13 @@ def run(out, tier, seed):
     if sigs_seed == sigs and all(sigs_seed[k] == sigs[k] for k in sigs):
         out.drift.append("RegistryPaths: the reordered mechanism is indistinguishable from the tree's")
     if tier == "quick":
-        phists = rng.sample(phists, min(len(phists), 80))
+        # every history in which a function and the function defined inside it are both probed (what is compiled when decides
+        # which code the nested path points at), a sample of the others
+        def nest(h):
+            return {"make", "make.inner"} <= {x[1] for x in h}
+        both = [h for h in phists if nest(h)]
+        rest = [h for h in phists if not nest(h)]
+        phists = both + rng.sample(rest, min(len(rest), 80))
     for h in phists:
         target = rng.choice(probed) if tier == "quick" else None
         for tk in ([target] if target else probed):
